@@ -20,6 +20,7 @@ EXTENDS Naturals, Integers, Sequences, FiniteSets, TLC
 CONSTANTS MaxRows,
           CheckShort,    \* TRUE: a later data set of the frame with fewer rows than are to be loaded is refused (this tree, F40); FALSE: before -
                          \* the rows are cut from it all the same (a single row was broadcast, other lengths failed inside numpy)
+          CheckMapping,  \* TRUE: the fast path also requires every field to be read under its own name (this tree, F39); FALSE: before
           CheckBounds    \* TRUE: a negative from_idx and a chunk size below 1 are refused (this tree); FALSE: the behaviour before
                          \* that repair - no chunk is cut for a chunk size below 1 and the write ends without rows
 
@@ -30,7 +31,8 @@ VARIABLES
   total2,    \* rows of a later data set of the same frame
   from, to,  \* window (to = -1: open ended)
   chunk,     \* input_chunk_size (NoChunk = None; 0 and negative values are what a caller may pass by mistake)
-  kind,      \* "copy" | "fast"
+  crossed,   \* the dataset names cross the channel names (channel A reads field B, channel B reads field A)
+  kind,      \* "copy" | "fast": the target dtype differs from / equals the dtype of the structured source
   pc,        \* "init" | "gen" | "done" | "raised"
   nrows,     \* SourceDataWrapper._n_rows
   full, rem, \* n_full_chunks, remainder_rows
@@ -41,7 +43,7 @@ VARIABLES
   aliased,   \* some chunk handed out was a view of the caller's array
   written    \* the model wrote through such a view (never)
 
-vars == << total, total2, from, to, chunk, kind, pc, nrows, full, rem, ci, pending, out, i, aliased, written >>
+vars == << total, total2, crossed, from, to, chunk, kind, pc, nrows, full, rem, ci, pending, out, i, aliased, written >>
 
 Init ==
   /\ total \in 1..MaxRows
@@ -50,6 +52,7 @@ Init ==
   /\ to \in {-1} \cup (0..(MaxRows + 1))
   /\ chunk \in {NoChunk} \cup ((-2)..(MaxRows + 1))
   /\ kind \in {"copy", "fast"}
+  /\ crossed \in BOOLEAN
   /\ pc = "init" /\ nrows = 0 /\ full = 0 /\ rem = 0 /\ ci = 0 /\ pending = << >> /\ out = << >> /\ i = 0
   /\ aliased = FALSE /\ written = FALSE
 
@@ -67,7 +70,10 @@ Setup ==
           /\ IF chunk = NoChunk THEN full' = 1 /\ rem' = 0
              ELSE full' = n \div chunk /\ rem' = n % chunk
           /\ pc' = "gen"
-  /\ UNCHANGED << total, total2, from, to, chunk, kind, ci, pending, out, i, aliased, written >>
+  /\ UNCHANGED << total, total2, crossed, from, to, chunk, kind, ci, pending, out, i, aliased, written >>
+
+(* NumpyDataWrapper.load_chunk hands out a slice of the source when the dtypes are equal (and, since F39, no name is crossed) *)
+TakenFast == kind = "fast" /\ (CheckMapping => ~crossed)
 
 (* load_chunk(start, stop): rows of the source addressed by the chunk      *)
 ChunkRows(start, stop) == [k \in 1..(stop - start) |-> from + start + k - 1]
@@ -81,22 +87,22 @@ LoadChunk ==
         THEN pc' = "raised" /\ UNCHANGED << pending, ci, aliased >>
         ELSE /\ pending' = ChunkRows(start, stop)
              /\ ci' = ci + 1
-             /\ aliased' = (aliased \/ kind = "fast")
+             /\ aliased' = (aliased \/ TakenFast)
              /\ UNCHANGED pc
-  /\ UNCHANGED << total, total2, from, to, chunk, kind, nrows, full, rem, out, i, written >>
+  /\ UNCHANGED << total, total2, crossed, from, to, chunk, kind, nrows, full, rem, out, i, written >>
 
 (* MultiFrameData.__next__: one FrameData per row of the chunk             *)
 NextFrameData ==
   /\ pc = "gen" /\ pending # << >> /\ i < nrows
   /\ i' = i + 1
-  /\ out' = Append(out, [row |-> Head(pending), fno |-> i + 1])
+  /\ out' = Append(out, [row |-> Head(pending), fno |-> i + 1, own |-> ~(TakenFast /\ crossed)])    \* own: every channel got its mapped field
   /\ pending' = Tail(pending)
-  /\ UNCHANGED << total, total2, from, to, chunk, kind, pc, nrows, full, rem, ci, aliased, written >>
+  /\ UNCHANGED << total, total2, crossed, from, to, chunk, kind, pc, nrows, full, rem, ci, aliased, written >>
 
 Finish ==
   /\ pc = "gen" /\ i >= nrows
   /\ pc' = "done"
-  /\ UNCHANGED << total, total2, from, to, chunk, kind, nrows, full, rem, ci, pending, out, i, aliased, written >>
+  /\ UNCHANGED << total, total2, crossed, from, to, chunk, kind, nrows, full, rem, ci, pending, out, i, aliased, written >>
 
 Next == Setup \/ LoadChunk \/ NextFrameData \/ Finish
 Spec == Init /\ [][Next]_vars
@@ -122,5 +128,7 @@ InOrder == \A k \in DOMAIN out : out[k].row = from + k - 1 /\ out[k].fno = k
 (* C19: nothing is written through a view of the caller's data              *)
 NoWriteThrough == ~written
 (* every row served exists in the later data set too (C12: unequal row counts; longer later data sets are known finding K02) *)
+(* C11: slot order / content follows the channel -> data set mapping, never the source's field order *)
+MappingHonoured == \A k \in DOMAIN out : out[k].own
 SecondColumn == \A k \in DOMAIN out : out[k].row < total2
 =====================================================================================
